@@ -42,6 +42,7 @@ theorem woken_exit {cfg : Config} {s s' : State} {e : Event} (hi : Inv s) (h : T
       simp [hne, hw]
     · exact hw
     · exact hw
+    · exact hw
     · dsimp only
       by_cases hq : (if (s.thr t).bcast = true then s.queue else sigSelect s.recs s.queue).contains r = true
       · exfalso
@@ -62,6 +63,7 @@ theorem woken_exit {cfg : Config} {s s' : State} {e : Event} (hi : Inv s) (h : T
   | relDeq t new obs n hl hh hnew hn hsp =>
     refine wx_one (r0 := (s.thr t).r) (fun q hq => by simp [hq]) (fun _ => .inr (.inr (.inr ⟨t, new, obs, rfl, hl, rfl⟩))) r hw
   | relDeqW t new obs n hl hh hnew hn hsp => exact .inl hw
+  | relDbg t new obs n hl hh hnew hn hsp => exact .inl hw
   | wHeadExit t r0 y hy hl hr hw' =>
     refine wx_one (r0 := r0) (fun q hq => by simp [hq]) (fun _ => .inr (.inl ⟨t, rfl⟩)) r hw
   | wCmpEq t r0 obs hl hr ho he =>
@@ -187,6 +189,9 @@ theorem afterLoop_leave {cfg : Config} {s s' : State} {e : Event} (h : Tr cfg s 
     refine ll_actor (t0 := t0) (fun u hu => by simp [hu]) ?_ u hm
     intro h; rw [hl] at h; cases h
   | relDeqW t0 new obs n hl hh hnew hn hsp =>
+    refine ll_actor (t0 := t0) (fun u hu => by simp [hu]) ?_ u hm
+    intro h; rw [hl] at h; cases h
+  | relDbg t0 new obs n hl hh hnew hn hsp =>
     refine ll_actor (t0 := t0) (fun u hu => by simp [hu]) ?_ u hm
     intro h; rw [hl] at h; cases h
   | wHeadExit t0 r y hy hl hr hw =>
